@@ -153,7 +153,7 @@ def run_case(case, res):
     recip = [1 / w for w in gw]
     for lab, nodes in cut_sets(U, full):
         configs = [(gen, None), (gen, gw), (gen2, None)]
-        if lab in ("existing", "mid"):
+        if lab == "existing":
             configs.append((recip, gw))  # weighted numerator constant: only the weight function needs the knots
         if lab in ("existing", "mid", "zero", "all_knots") and (full or n <= 5):
             configs += [(e, None) for e in al.unit_vectors(n)]
